@@ -774,7 +774,7 @@ pub fn c19_plugins(cx: &mut Ctx) {
                         cx.v(
                             "C19",
                             "denied_statement_at_server",
-                            &format!("C19/listed_table_statement_reached_server/spelling={}/where={}{}", spelling, where_, if later { "/in_a_later_batch" } else { "" }),
+                            &format!("C19/listed_table_statement_reached_server/spelling={}/where={}{}{}", spelling, where_, if later { "/in_a_later_batch" } else { "" }, if position == "from_only" { "/position=from_only" } else { "" }),
                             u.first_seq,
                             format!("client {} step {}: a statement referring to a listed table ({} spelling, {} position, sent {}) reached {}: {}", c.id, s.idx, spelling, position, where_, h.backend_conns[ci].host, texts.join(" | ").chars().take(160).collect::<String>()),
                         );
